@@ -18,7 +18,7 @@ def obligations(tier):
                   desc='wfstack: 2 pushers (3 pushes) vs single consumer 2 x __cds_wfs_pop_%s then drain: LIFO oracle, conservation, '
                        'push result, WOULDBLOCK/LAST clauses' % kn,
                   wit=['consumer popped two nodes concurrently with the pushers', 'consumer saw an empty stack'] +
-                      (['pop reported STATE_LAST'] if k in (2, 3) else []))
+                      (['pop reported STATE_LAST', 'pop without STATE_LAST'] if k in (2, 3) else []))
     obs += ob('wfs_pop_all_iter', 0, 2, 0, ['p1', 'p2', 'c1'], R,
               desc='wfstack: pop then __cds_wfs_pop_all + cds_wfs_for_each_blocking racing incomplete pushes (iteration must wait, not run past)',
               wit=['pop_all returned two nodes', 'pop_all returned an empty list'])
@@ -37,6 +37,10 @@ def obligations(tier):
               wit=['locked pop_all returned at least two nodes'])
     obs += ob('lfs_empty_observer', 1, 4, 0, ['p1', 'c1', 'c2'], R, desc='lfstack: cds_lfs_empty() observer',
               wit=['empty() observed a non-empty stack'])
+    obs += ob('lfs_mutex_pop_vs_pop_all_repush', 1, 7, 4, ['c1', 'c2'], R + 1, pre=('pro7',), post=('epi7',),
+              desc='lfstack mutex scheme: cds_lfs_pop_blocking vs cds_lfs_pop_all_blocking followed by an immediate re-push of the former top node: '
+                   'no node lost or returned twice (the pop mutex is what excludes the ABA)',
+              wit=['former top node pushed back right after pop_all'])
     obs += ob('lfs_aba_with_grace_period', 1, 5, 0, ['c1', 'c2'], R + 1, extra_cf=['-DGP=1'], pre=('pro5',), post=('epi5',),
               desc='lfstack ABA: unprotected-by-mutex popper inside a read-side section; recycler pops two nodes and re-pushes the first '
                    'only after a grace period (synchronize_rcu contract stub): no loss, no duplication')
